@@ -4,6 +4,7 @@
   on the real code it is exercised by the forced schedules of the conc suite (a reader completes while the writer
   is parked holding writeMu).
 -/
+import RaftWal.Generated.WalLogic
 import RaftWal.Generated.Conc
 import RaftWal.Proofs.ConcProps
 import RaftWal.Props.C01
@@ -65,5 +66,9 @@ theorem reads_gated_on_commit_index : Generated.readsGatedOnCommitIdx = true := 
 /-- T1: the writer attaches the finalizer only after the meta commit and the publication of the successor — the
     order of the model's writer steps (`held → published → finSet`) -/
 theorem finalizer_attached_after_publish : Generated.finalizerAttachedAfterPublish = true := by decide
+
+/-- StoreLogs and DeleteRange — every kind of DeleteRange — wait for a queued rotation after taking the write lock and
+    before they look at the state (read from the source on every run): no call runs between a sealing append and its rotation -/
+theorem writers_wait_for_queued_rotation : Generated.writersAwaitRotationFirst = true := by decide
 
 end RaftWal.C06
